@@ -339,6 +339,7 @@ def run(ctx):
         ('fold', 1, lambda t: etl.fold(t, 'x', lambda a, b: a + b, 'v')), ('mergeduplicates', 1, lambda t: etl.mergeduplicates(t, 'x')),
         ('groupcountdistinctvalues', 1, lambda t: etl.groupcountdistinctvalues(t, 'x', 'v')),
     ], 480 if ctx.thorough() else 120)
+    util.positional_call_cases(etl, rng, ctx, ['mergeduplicates'], 120 if ctx.thorough() else 36, 1)
 
 def replay(d):
     print('replay case:', d.get('case'))
